@@ -21,6 +21,26 @@ def normalize(t, p=2.0, dim=1, eps=1e-12):
     return t / den
 
 
+def pairwise_distance(x1, x2, p=2.0, eps=1e-6, keepdim=False):
+    """|| x1 - x2 + eps ||_p along the last dimension (torch semantics: eps is ADDED to every coordinate of the difference)"""
+    if p not in (2, 2.0):
+        raise ShimUnsupported("F.pairwise_distance p != 2")
+    d = x1 - x2 + eps
+    return (d * d).sum(-1, keepdim).sqrt()
+
+
+def relu(t):
+    return t.clamp(min=0)
+
+
+def cosine_similarity(x1, x2, dim=1, eps=1e-8):
+    import torch
+    n1 = (x1 * x1).sum(dim).sqrt()
+    n2 = (x2 * x2).sum(dim).sqrt()
+    den = n1._like([x if bool(x >= eps) else torch._lift(eps) for x in n1._flat()]) * n2._like([x if bool(x >= eps) else torch._lift(eps) for x in n2._flat()])
+    return (x1 * x2).sum(dim) / den
+
+
 def __getattr__(name):
     if name.startswith("__"):
         raise AttributeError(name)
